@@ -1,4 +1,7 @@
 import ALock.Props.C06
+import ALock.Lemmas.Accept
+import ALock.Props.C02
+import ALock.Props.C11
 
 /-!
 # C12 — RwLock is write-preferring: a waiting writer stops new readers
@@ -97,3 +100,25 @@ example :
      (step s' (.try_ 2 .read false)).2 = .some) := by decide
 
 end ALock.RwLock
+
+namespace ALock.Accept.RwLock
+open ALock.Atomic.RwLock
+
+/-- **C12 (executions of the real crate under preemption).** In every accepted execution, while an
+agent is a writer waiting for readers (`ww`) or has an upgrade pending (`pu`) the writer bit is set:
+the announcement is there, whatever was interleaved (and `try_read` / `read()` refuse on a set bit:
+the acceptor only accepts a reader's `compare_exchange` from a snapshot with the bit clear). -/
+theorem C12_accepted (n : Nat) (tr : List TEv) (st' : St) (h : acceptAll (init n) tr = .ok st')
+    (i : Nat) (hi : st'.sys.ags[i]? = some Pc.ww ∨ st'.sys.ags[i]? = some Pc.pu) :
+    st'.sys.state % 2 = 1 := by
+  obtain ⟨⟨l, e⟩, _⟩ := accepted_reachable h
+  rw [e] at hi ⊢
+  have hw := ALock.Atomic.RwLock.C02_interleaved_word l
+  have hm := ALock.Atomic.RwLock.C11_interleaved_slot l
+  have hb : bits (run {} l).ags = 1 := by
+    rcases hi with hi | hi
+    · exact (others_zero hm hi (by simp [Pc.mh])).1.trans (by simp [Pc.bt])
+    · exact (others_zero hm hi (by simp [Pc.mh])).1.trans (by simp [Pc.bt])
+  omega
+
+end ALock.Accept.RwLock
